@@ -744,11 +744,10 @@ def gen_case(rng, nreq=8):
     return gen_topo(rng, n, extra, cut=rng.random() < 0.12, patch_p=rng.choice([0, 0, 0.15, 0.35]))
 
 
-# Requests WITH an include list on meshes containing RamanFiber spans are not generated for the time being: on the
-# unchanged tree they can crash (networkx formats NetworkXNoPath with str(node), RamanFiber.__str__ reads
-# actual_raman_gain which only exists after a propagation -> AttributeError out of compute_constrained_path; reported
-# to the coordinator with the input notes/c11_raman_str_finding.json).  Set to True once that is repaired.
-RAMAN_CONSTRAINED = False
+# Requests with an include list on meshes containing RamanFiber spans: on the pinned tree they could crash (networkx
+# formats NetworkXNoPath with str(node), RamanFiber.__str__ read actual_raman_gain which only exists after a propagation
+# -> AttributeError out of compute_constrained_path); repaired by /repo 1e55bd61, regression corpus/C11/f_raman_str_*.
+RAMAN_CONSTRAINED = True
 
 
 def has_raman(topo):
@@ -808,6 +807,9 @@ def run(ctx):
                 ctx.count('outcome_' + obs['out'][:1])
                 ctx.case({'topo': c['topo'], 'requests': [rq]}, bool(rq['nodes']))
             ctx.count('networks')
+            if has_raman(c['topo']):
+                ctx.count('raman_meshes')
+                ctx.count('requests_with_list_on_raman_mesh', sum(1 for rq, _ in pairs if rq['nodes']))
             ctx.count('sites_%d' % c['topo']['n'])
             terms.append(coq_net_term(N, pairs))
             meta.append((N, c, pairs))
